@@ -63,6 +63,12 @@ Theorem hash_ignores_attrs : forall printable md5 r ats,
 Proof. exact HashProofs.hash_ignores_attrs. Qed.
 Print Assumptions hash_ignores_attrs.
 
+(* every attribute at every depth *)
+Theorem hash_ignores_all_attrs : forall printable md5 r,
+  hash printable md5 (strip r) = hash printable md5 r.
+Proof. exact HashProofs.hash_ignores_all_attrs. Qed.
+Print Assumptions hash_ignores_all_attrs.
+
 (* attributes and omitted fields anywhere in the tree *)
 Theorem dump_ignores_attrs_deep : forall printable a b,
   erase a = erase b -> dump_raw printable a = dump_raw printable b.
